@@ -92,6 +92,33 @@ fn gen_sem_full(rng: &mut Rng) -> Sexp {
     };
     l(vec![case, out])
 }
+/// hand-built trees outside the parser's image (empty guard list, empty variable name), kept apart
+/// from the ops on real formulas: `(which F)`, which = rdn|sdv|rqd|eqs|ste (one rule of CLASSIC) or a
+/// strategy name (CLASSIC under that strategy); result as for the corresponding op
+const WHICH: [&str; 5] = ["rdn", "sdv", "rqd", "eqs", "ste"];
+fn gen_outside_parser(rng: &mut Rng) -> Sexp {
+    let k = rng.below(8);
+    if k < 5 {
+        let rule = [x::Rule::Rdn, x::Rule::Sdv, x::Rule::Rqd, x::Rule::Eqs, x::Rule::Ste][k];
+        // the damaged redex of the rule itself, or of any rule
+        let own = rng.chance(70);
+        let f = x::formula_outside_parser(rng, if own { Some(rule) } else { None });
+        l(vec![a(WHICH[k]), conv::formula(&f)])
+    } else {
+        let s = [x::Strategy::Shallow, x::Strategy::Recursive, x::Strategy::Fixpoint][k - 5];
+        let f = x::formula_outside_parser(rng, None);
+        l(vec![a(x::strategy_name(s)), conv::formula(&f)])
+    }
+}
+fn run_outside_parser(e: &Sexp) -> Result<Sexp, String> {
+    match e.as_list()? {
+        [Sexp::A(w), f] => match WHICH.iter().position(|n| n == w) {
+            Some(i) => rule(i, f),
+            None => run_simplify_cls(e),
+        },
+        _ => Err("(which formula) expected".into()),
+    }
+}
 /// tool op (corpus construction, mutant trials): parse anthem's concrete syntax into the wire format
 fn run_parse(e: &Sexp) -> Result<Sexp, String> {
     let text = conv::string_of(e)?;
@@ -115,6 +142,7 @@ pub fn ops() -> Vec<Op> {
         Op { name: "sc_extend_quantifier_scope", generate: gen_eqs, run: run_eqs },
         Op { name: "sc_simplify_transitive_equality", generate: gen_ste, run: run_ste },
         Op { name: "simplify_cls", generate: gen_strategy_case, run: run_simplify_cls },
+        Op { name: "sc_outside_parser", generate: gen_outside_parser, run: run_outside_parser },
         Op { name: "simplify_full_classic", generate: gen_strategy_case, run: run_simplify_full_classic },
         Op { name: "sem_simplify_full_classic", generate: gen_sem_full, run: run_identity },
         Op { name: "sc_parse", generate: gen_parse, run: run_parse },
